@@ -65,6 +65,11 @@ def facts_dir(config="default", repo=None, quiet=False):
         out = os.path.join(CACHE, "facts", th, config)
         info = {"tree_hash": th, "config": config, "cached": True, "extract_s": 0.0}
         ok = all(os.path.exists(os.path.join(out, c + ".json")) for c in CRATES)
+        if ok:
+            try:
+                os.utime(os.path.join(CACHE, "facts", th))      # least-recently-USED pruning
+            except OSError:
+                pass
         if not ok:
             info["cached"] = False
             t0 = time.time()
